@@ -42,4 +42,11 @@ def nBest (largest : Bool) (n : Nat) (fn : Option Nat) (s : Nat) (fuel : Nat) : 
 def merge (fn : Option Nat) (reverse : Bool) (srcs : List Nat) (fuel : Nat) : M Unit :=
   tryFinally (Std.merge fn reverse srcs fuel) (closeAll srcs)
 
+/-- `builtins.dict(iterable=(), /, **kwargs)`: `base_dict = {key: value async for key, value in item_iter}` inside the
+    scope; after the scope is left `if kwargs: base_dict.update(kwargs)`; `return base_dict` -/
+def dictKw (kw : List (Val × Val)) (s : Nat) (fuel : Nat) : M Val := do
+  let base ← scopedIter s (Std.dictLoop s [] fuel)
+  let base ← if kw.isEmpty then pure base else Std.dictUpdateKw base kw
+  pure (Std.dictVal base)
+
 end AsyncVerif.Impl
